@@ -1,5 +1,5 @@
 """C09 — Version history is preserved exactly in versioned buckets (DESIGN.md §7 C09)."""
-import hashlib, json, os, random, shutil
+import hashlib, json, os, random, shutil, urllib.parse
 from vlib import common, coq, gobuild, gw, s3c, e2e, hooks
 from vlib.common import coq_list
 
@@ -77,8 +77,32 @@ def history(chk, cl, bk, rnd, n_ops, idmap, interrupt=None):
     def do_put(k):
         bi = nblob[0]; nblob[0] += 1; body = blob(bi); blobs[hashlib.md5(body).hexdigest()] = bi
         m = rnd.randrange(len(METAS)); hd = dict(METAS[m][0]); hd.update({"x-amz-meta-" + a: b for a, b in METAS[m][1].items()})
-        how = rnd.choice(["plain", "plain", "plain", "copy", "multipart"])
-        if how == "plain":
+        how = rnd.choice(["plain", "plain", "plain", "copy", "multipart", "copy-version", "part-copy-version"])
+        srcs = [(k2, i) for k2 in KEYS if k2 != k for i, mk_ in sh.stacks.get(k2, []) if not mk_]
+        if how.endswith("-version") and (not srcs or sh.status != "Enabled"):
+            how = "plain"         # (a version id in a copy source is only accepted while versioning is enabled; the property speaks of enabled buckets)
+        if how.endswith("-version"):
+            # the new content is one stored version of ANOTHER key, named by its version id in the copy source; which blob that is
+            # comes from reading that version first (a recorded step of its own, compared with the model like every other)
+            k2, i2 = rnd.choice(srcs)
+            nblob[0] -= 1
+            r1 = cl.req("GET", path(k2), query={"versionId": vstr(i2)}); o1 = obj_obs(r1)
+            record("GetVersion %d %s" % (KEYS.index(k2), cvid(i2)), "get %s version %s" % (k2, "null" if i2 is None else "#%d" % i2), o1)
+            if o1[0] != "obj" or o1[1] < 0:
+                return
+            bi = o1[1]; body = blob(bi); blobs[e2e.multipart_etag([body])] = bi
+            src = urllib.parse.quote("%s/%s" % (bk, k2)) + "?versionId=" + vstr(i2)
+            if how == "copy-version":
+                hd2 = dict(hd); hd2.update({"x-amz-copy-source": src, "x-amz-metadata-directive": "REPLACE"})
+                r = cl.req("PUT", path(k), headers=hd2)
+            else:
+                r0 = cl.req("POST", path(k), query={"uploads": ""}, headers=hd); r = r0
+                if r0.status == 200:
+                    uid = r0.xml().findtext("UploadId")
+                    rp = cl.req("PUT", path(k), query={"partNumber": "1", "uploadId": uid}, headers={"x-amz-copy-source": src})
+                    et = rp.xml().findtext("ETag") if rp.status == 200 and rp.xml() is not None and rp.xml().tag != "Error" else ""
+                    r = cl.req("POST", path(k), query={"uploadId": uid}, body=("<CompleteMultipartUpload><Part><PartNumber>1</PartNumber><ETag>%s</ETag></Part></CompleteMultipartUpload>" % et).encode())
+        elif how == "plain":
             r = cl.req("PUT", path(k), body=body, headers=hd)
         elif how == "copy":
             r0 = cl.req("PUT", "/%s-src/s%d" % (bk, bi), body=body, headers=hd)
@@ -275,7 +299,7 @@ def decode(enc):
 def run(chk):
     quick = chk.tier == "quick"
     chk.rule = ("a case is one random program (15-45 steps) on a fresh bucket: optional writes before versioning is enabled (the null version), "
-                "then put (plain / CopyObject / multipart completion) / delete / delete-by-version (existing, null, foreign and unknown ids) / "
+                "then put (plain / CopyObject / multipart completion / CopyObject and UploadPartCopy from a stored version of another key) / delete / delete-by-version (existing, null, foreign and unknown ids) / "
                 "get / get-and-head-by-version / list-versions (unpaged and paged with max-keys 1-3, following the markers) / enable-suspend "
                 "toggles on four keys, interleaved with refused writes and with overwrites killed before publication (gateway restarted), ending with a sweep that reads every remaining version by id; every answer of the real gateway is "
                 "compared with the reference version machine (Model/Versions.v) evaluated in Coq. Non-trivial: at least one overwrite or delete "
